@@ -276,6 +276,12 @@ func (r *readerRun) concretise() []byte {
 			rest := comp
 			for k, j := range idx {
 				n := p.Frames[j].Len
+				if n < 0 {
+					n = len(rest) + n
+					if n < 0 {
+						n = 0
+					}
+				}
 				if k == len(idx)-1 || n > len(rest) {
 					n = len(rest)
 				}
@@ -604,9 +610,30 @@ func (r *readerRun) exec(sc *xport.ScriptConn) (out []Ev) {
 		})
 	}
 
+	// Allocation monitor (C06/C07): TotalAlloc is sampled around library
+	// calls only, so that the harness' own bookkeeping is not counted.
 	var ms runtime.MemStats
-	runtime.ReadMemStats(&ms)
-	alloc0 := ms.TotalAlloc
+	var libAlloc uint64
+	ncalls := 0
+	measure := func(f func()) {
+		ncalls++
+		if ncalls > 64 {
+			f()
+			return
+		}
+		runtime.ReadMemStats(&ms)
+		a0 := ms.TotalAlloc
+		f()
+		runtime.ReadMemStats(&ms)
+		libAlloc += ms.TotalAlloc - a0
+	}
+	kmax := 1
+	for _, op := range p.Reads {
+		if op.K > kmax {
+			kmax = op.K
+		}
+	}
+	big := make([]byte, kmax)
 
 	var rd io.Reader
 	var acc []byte
@@ -629,7 +656,10 @@ func (r *readerRun) exec(sc *xport.ScriptConn) (out []Ev) {
 	for _, op := range ops {
 		switch op.Op {
 		case "NR":
-			t, rr, err := c.NextReader()
+			var t int
+			var rr io.Reader
+			var err error
+			measure(func() { t, rr, err = c.NextReader() })
 			rd = rr
 			acc = nil
 			out = append(out, Ev{"e": "NR", "ok": err == nil, "type": t, "err": r.classify(err), "obs": r.takeObs()})
@@ -637,8 +667,10 @@ func (r *readerRun) exec(sc *xport.ScriptConn) (out []Ev) {
 			if rd == nil {
 				continue
 			}
-			buf := make([]byte, op.K)
-			n, err := rd.Read(buf)
+			buf := big[:op.K]
+			var n int
+			var err error
+			measure(func() { n, err = rd.Read(buf) })
 			acc = append(acc, buf[:n]...)
 			cand, any := contentCand()
 			out = append(out, Ev{"e": "RD", "k": op.K, "n": n, "err": r.classify(err), "obs": r.takeObs(), "cand": cand, "any": any})
@@ -654,8 +686,13 @@ func (r *readerRun) exec(sc *xport.ScriptConn) (out []Ev) {
 					break
 				}
 				k := len(e) - len(acc)
-				buf := make([]byte, k)
-				n, err := rd.Read(buf)
+				if k > len(big) {
+					big = make([]byte, k)
+				}
+				buf := big[:k]
+				var n int
+				var err error
+				measure(func() { n, err = rd.Read(buf) })
 				acc = append(acc, buf[:n]...)
 				cand, any := contentCand()
 				out = append(out, Ev{"e": "RD", "k": k, "n": n, "err": r.classify(err), "obs": r.takeObs(), "cand": cand, "any": any})
@@ -663,16 +700,38 @@ func (r *readerRun) exec(sc *xport.ScriptConn) (out []Ev) {
 					break
 				}
 			}
+		case "RL":
+			// read loop: Read(k) until EOF or error
+			if rd == nil {
+				continue
+			}
+			for it := 0; it < 200000; it++ {
+				buf := big[:op.K]
+				var n int
+				var err error
+				measure(func() { n, err = rd.Read(buf) })
+				acc = append(acc, buf[:n]...)
+				cand, any := contentCand()
+				out = append(out, Ev{"e": "RD", "k": op.K, "n": n, "err": r.classify(err), "obs": r.takeObs(), "cand": cand, "any": any})
+				if err != nil {
+					break
+				}
+			}
 		case "RA":
 			if rd == nil {
 				continue
 			}
-			b, err := io.ReadAll(rd)
+			var b []byte
+			var err error
+			measure(func() { b, err = io.ReadAll(rd) })
 			acc = append(acc, b...)
 			cand, any := contentCand()
 			out = append(out, Ev{"e": "RA", "n": len(b), "err": r.classify(err), "obs": r.takeObs(), "cand": cand, "any": any})
 		case "RM":
-			t, b, err := c.ReadMessage()
+			var t int
+			var b []byte
+			var err error
+			measure(func() { t, b, err = c.ReadMessage() })
 			rd = nil
 			acc = b
 			cand, any := contentCand()
@@ -680,8 +739,7 @@ func (r *readerRun) exec(sc *xport.ScriptConn) (out []Ev) {
 			acc = nil
 		}
 	}
-	runtime.ReadMemStats(&ms)
-	delta := ms.TotalAlloc - alloc0
+	delta := libAlloc
 	fed := uint64(sc.BytesRead())
 	if delta > 8*fed+(4<<20) {
 		out = append(out, Ev{"e": "ALLOC", "delta": delta, "fed": fed})
